@@ -390,7 +390,10 @@ def enrich(rng, toks, protocols):
     return out
 
 
-SOURCE_ATTRS = [' href="jav&#x09;ascript:alert(1)"', ' href="&#1;javascript:x"', ' src="java&NewLine;script:x"', ' href="javascript&colon;x"',
+# several URI attributes on one tag, one of them unparseable (urlparse raises ValueError): every other one must still be checked
+MULTI_URI_ATTRS = [' href="http://[/" cite="javascript:alert(1)" longdesc="javascript:alert(1)" src="javascript:alert(1)" action="javascript:alert(1)" poster="javascript:alert(1)" background="javascript:alert(1)"', ' href="h://]" cite="javascript:alert(1)" longdesc="javascript:alert(1)" src="javascript:alert(1)" action="javascript:alert(1)" poster="javascript:alert(1)" background="javascript:alert(1)"', ' href="javascript:alert(1)" cite="http://[/" longdesc="javascript:alert(1)" src="javascript:alert(1)" action="javascript:alert(1)" poster="javascript:alert(1)" background="javascript:alert(1)"', ' href="javascript:alert(1)" cite="h://]" longdesc="javascript:alert(1)" src="javascript:alert(1)" action="javascript:alert(1)" poster="javascript:alert(1)" background="javascript:alert(1)"', ' href="javascript:alert(1)" cite="javascript:alert(1)" longdesc="http://[/" src="javascript:alert(1)" action="javascript:alert(1)" poster="javascript:alert(1)" background="javascript:alert(1)"', ' href="javascript:alert(1)" cite="javascript:alert(1)" longdesc="h://]" src="javascript:alert(1)" action="javascript:alert(1)" poster="javascript:alert(1)" background="javascript:alert(1)"', ' href="javascript:alert(1)" cite="javascript:alert(1)" longdesc="javascript:alert(1)" src="http://[/" action="javascript:alert(1)" poster="javascript:alert(1)" background="javascript:alert(1)"', ' href="javascript:alert(1)" cite="javascript:alert(1)" longdesc="javascript:alert(1)" src="h://]" action="javascript:alert(1)" poster="javascript:alert(1)" background="javascript:alert(1)"', ' href="javascript:alert(1)" cite="javascript:alert(1)" longdesc="javascript:alert(1)" src="javascript:alert(1)" action="http://[/" poster="javascript:alert(1)" background="javascript:alert(1)"', ' href="javascript:alert(1)" cite="javascript:alert(1)" longdesc="javascript:alert(1)" src="javascript:alert(1)" action="h://]" poster="javascript:alert(1)" background="javascript:alert(1)"', ' href="javascript:alert(1)" cite="javascript:alert(1)" longdesc="javascript:alert(1)" src="javascript:alert(1)" action="javascript:alert(1)" poster="http://[/" background="javascript:alert(1)"', ' href="javascript:alert(1)" cite="javascript:alert(1)" longdesc="javascript:alert(1)" src="javascript:alert(1)" action="javascript:alert(1)" poster="h://]" background="javascript:alert(1)"', ' href="javascript:alert(1)" cite="javascript:alert(1)" longdesc="javascript:alert(1)" src="javascript:alert(1)" action="javascript:alert(1)" poster="javascript:alert(1)" background="http://[/"', ' href="javascript:alert(1)" cite="javascript:alert(1)" longdesc="javascript:alert(1)" src="javascript:alert(1)" action="javascript:alert(1)" poster="javascript:alert(1)" background="h://]"']
+
+SOURCE_ATTRS = MULTI_URI_ATTRS + [' href="jav&#x09;ascript:alert(1)"', ' href="&#1;javascript:x"', ' src="java&NewLine;script:x"', ' href="javascript&colon;x"',
                 ' href=" &#14; javascript:x"', ' href="data:text/html;base64,PHNjcmlwdD4="', ' src="data:image/png;base64,AAAA"',
                 ' href="&#x6A;avascript:x"', ' href="feed:javascript:x"', ' href="JaVaScRiPt:x"', ' href="http://[::1]/"', ' href="//[::1"',
                 ' style="color: red; background: url(javascript:x)"', ' style="width: expression(alert(1))"', ' style="color: URL(1)"',
